@@ -497,6 +497,7 @@ func (r *BlockchainReactor) Receive(chID byte, src p2p.Peer, msgBytes []byte) {
 		bi, err := types.BlockFromProto(msg.Block, trie.NewStackTrie(nil))
 		if err != nil {
 			r.logger.Error("error transitioning block from protobuf", "err", err)
+			r.mtx.RUnlock()
 			return
 		}
 		if r.events != nil {
